@@ -20,6 +20,7 @@ import h5py
 import numpy as np
 
 from ctmverif import election_util as eu
+from ctmverif import stagefiles_util
 from ctmverif import election_pipeline as ep
 from ctmverif import pipeline
 
@@ -353,10 +354,14 @@ def run(ctx):
         ctx.violation(SIG + '/vacuous', 'no (centroid, node) with the guard '
                       'true was generated: the check is vacuous', {},
                       found_input=False)
+    # name tables linking the stage files (C18 first sentence)
+    stagefiles_util.run_c18(ctx)
 
 
 def replay(ctx, data, from_corpus=False):
     d = data.get('detail', data)
+    if d.get('kind') == 'names':
+        return stagefiles_util.replay_names(ctx, d)
     if d.get('kind') == 'chain':
         check_case(ctx, d)
     elif not from_corpus:
